@@ -78,14 +78,21 @@ func checkSeekTables(p *Program, r *Report) {
 	}
 	// ---- DT-RESTART: predicate passed to the binary search
 	{
+		// the predicate is the closure handed to sort.Search by a block reader method
 		var pred *ssa.Function
+		nPred := 0
 		for _, f := range p.Funcs {
-			if f.Parent() != nil && funcKey(f.Parent()) == "(*blockReader).seek" {
-				pred = f
+			for _, ci := range callsDirect(f, "sort.Search") {
+				if mc, ok := ci.Common().Args[1].(*ssa.MakeClosure); ok {
+					if g, ok := mc.Fn.(*ssa.Function); ok {
+						pred = g
+						nPred++
+					}
+				}
 			}
 		}
-		if pred == nil {
-			fatalf("unresolved anchor: restart search predicate (closure in (*blockReader).seek)")
+		if pred == nil || nPred != 1 {
+			fatalf("unresolved anchor: restart search predicate (closure handed to sort.Search): %d found", nPred)
 		}
 		cfg := &simCfg{Pure: map[string]bool{"(*blockReader).restartOffset": true}, Event: map[string]bool{"decodeRestartKey": true}, Keep: map[string]bool{"decodeRestartKey": true}, NoInlineDefault: true}
 		c, _ := runSim(p, pred, cfg, nil)
@@ -134,7 +141,7 @@ func checkSeekTables(p *Program, r *Report) {
 		f := p.MustFunc("(*Reader).seekLinear")
 		fk := funcKey(f)
 		cfg := &simCfg{Event: map[string]bool{"(*tableIter).nextBlock": true, "(*tableIter).Next": true, "(*blockIter).seek": true}, Pure: map[string]bool{keyName: true, "method:(record).typ": true},
-			Opaque: map[string]bool{"newRecord": true}, NoInlineDefault: true}
+			Opaque: map[string]bool{"newRecord": true}}
 		c, _ := runSim(p, f, cfg, nil)
 		wantRec := mk("param", fk+"."+f.Params[2].Name(), f.Params[2].Type())
 		nB, nS := 0, 0
@@ -234,7 +241,7 @@ func checkSeekTables(p *Program, r *Report) {
 		f := p.MustFunc("(*Reader).seekIndexed")
 		fk := funcKey(f)
 		cfg := &simCfg{Event: map[string]bool{"(*Reader).seekLinear": true, "(*tableIter).Next": true, "(*Reader).tabIterAt": true, "(*blockIter).seek": true, "(*Reader).start": true},
-			Pure: map[string]bool{keyName: true, "method:(record).typ": true}, NoInlineDefault: true}
+			Pure: map[string]bool{keyName: true, "method:(record).typ": true}, Opaque: map[string]bool{"newRecord": true}}
 		c, _ := runSim(p, f, cfg, nil)
 		nRet, nDesc := 0, 0
 		for _, s := range c.Samples {
@@ -312,8 +319,8 @@ func checkReadWidth(p *Program, r *Report) {
 	cfg := &simCfg{
 		Event:           map[string]bool{"(*Reader).getBlock": true, "newBlockReader": true},
 		Keep:            map[string]bool{"(*Reader).getBlock": true, "newBlockReader": true},
-		Pure:            map[string]bool{"extractBlockSize": true, "headerSize": true},
-		NoInlineDefault: true,
+		Pure:   map[string]bool{"extractBlockSize": true, "headerSize": true},
+		Opaque: map[string]bool{"fmt.Errorf": true},
 	}
 	c, _ := runSim(p, f, cfg, nil)
 	recv := mk("param", fk+"."+f.Params[0].Name(), nil)
